@@ -1,6 +1,7 @@
 /- Driver handlers for requirements and dependencies:
 `reqparse <text>`; `giturl <text>`; `dep508 <text> <probe versions…> | <envs…>`; `deprt <text>`;
-`depmk registry|url|vcs <args…> -- <probe versions…> | <envs…>` (constructors + `marker` / `python_versions` setters);
+`depmk registry|url|vcs <args…> <marker> <python> <pyFirst> <in_extras> <probe versions…> | <envs…>` (constructors, the
+`marker` / `python_versions` setters, `_in_extras` as factory.py records it);
 `depeq <text> <text>` (`__eq__`, `is_same_source_as`, hash keys equal). -/
 import PoetryVerif.Protocol
 import PoetryVerif.Model.Dep
@@ -51,7 +52,8 @@ def depResult (r : PyM Dep) (probes envs : List String) : String :=
 
 /-- optional marker text / python versions applied through the setters (in that order: python, then marker when
 `pyFirst`, else marker then python) -/
-def applySetters (d : Dep) (marker py : Option String) (pyFirst : Bool) : PyM Dep := do
+def applySetters (d : Dep) (marker py : Option String) (pyFirst : Bool) (inExtras : String := "") : PyM Dep := do
+  let fin (d : Dep) : Dep := if inExtras.isEmpty then d else { d with inExtras := inExtras.splitOn "," }
   let setM (d : Dep) : PyM Dep :=
     match marker with
     | some t => do let m ← parseMarker t; d.setMarker m
@@ -60,7 +62,7 @@ def applySetters (d : Dep) (marker py : Option String) (pyFirst : Bool) : PyM De
     match py with
     | some t => d.setPythonVersions t
     | none => pure d
-  if pyFirst then do setM (← setP d) else do setP (← setM d)
+  if pyFirst then do pure (fin (← setM (← setP d))) else do pure (fin (← setP (← setM d)))
 
 def extrasArg (s : String) : List String := if s.isEmpty then [] else s.splitOn ","
 
@@ -85,21 +87,21 @@ def handleDep (op : String) (args : List String) : Option String :=
       match d.toPep508 true with
       | .error e => "errp\t" ++ e.name
       | .ok t => "ok\t" ++ encode t ++ "\t" ++ depResult (createFromPep508 t) probes envs
-  | "depmk", "registry" :: name :: c :: extras :: marker :: py :: pyFirst :: rest =>
+  | "depmk", "registry" :: name :: c :: extras :: marker :: py :: pyFirst :: inEx :: rest =>
     let (probes, envs) := splitBar rest
     some (depResult (do
       let d ← mkRegistryStr name c (extrasArg extras)
-      applySetters d (optArg marker) (optArg py) (pyFirst == "1")) probes envs)
-  | "depmk", "url" :: name :: url :: dir :: extras :: marker :: py :: pyFirst :: rest =>
+      applySetters d (optArg marker) (optArg py) (pyFirst == "1") inEx) probes envs)
+  | "depmk", "url" :: name :: url :: dir :: extras :: marker :: py :: pyFirst :: inEx :: rest =>
     let (probes, envs) := splitBar rest
     some (depResult (do
       let d ← mkUrlDep name url (optArg dir) (extrasArg extras)
-      applySetters d (optArg marker) (optArg py) (pyFirst == "1")) probes envs)
-  | "depmk", "vcs" :: name :: vcs :: source :: branch :: tag :: rev :: dir :: extras :: marker :: py :: pyFirst :: rest =>
+      applySetters d (optArg marker) (optArg py) (pyFirst == "1") inEx) probes envs)
+  | "depmk", "vcs" :: name :: vcs :: source :: branch :: tag :: rev :: dir :: extras :: marker :: py :: pyFirst :: inEx :: rest =>
     let (probes, envs) := splitBar rest
     some (depResult (do
       let d ← mkVcsDep name vcs source (optArg branch) (optArg tag) (optArg rev) (optArg dir) (extrasArg extras)
-      applySetters d (optArg marker) (optArg py) (pyFirst == "1")) probes envs)
+      applySetters d (optArg marker) (optArg py) (pyFirst == "1") inEx) probes envs)
   | "depeq", [a, b] =>
     some <| match createFromPep508 a, createFromPep508 b with
     | .ok x, .ok y =>
